@@ -348,3 +348,23 @@ Proof.
   destruct r as [data|]; unfold completed_msgs in *; cbn [app filter p_complete map completed_outs p_msg set_body m_id m_body];
     now rewrite IH2.
 Qed.
+
+(* the bookkeeping is the identity on unfragmented traffic: every message is delivered as it is,
+   nothing is completed, the transfer table is untouched *)
+Lemma cp_loop_unfragmented now ms : forall s, Forall (fun rm => m_sum (snd rm) = 0) ms ->
+  cp_loop now s ms = (s, map (fun rm => {| p_raw := fst rm; p_msg := snd rm; p_complete := false |}) ms).
+Proof.
+  induction ms as [|[raw m] t IH]; intros s H; cbn [cp_loop map]. reflexivity.
+  inversion H as [|x l Hx Hl]; subst. cbn [snd fst] in *.
+  unfold complete_pack. rewrite Hx. cbn [N.eqb]. rewrite (IH s Hl). reflexivity.
+Qed.
+
+(* a decoded frame without the fragment bit announces no total *)
+Lemma decode_unfragmented_sum d m : decode d = Ok m -> m_frag m = 0 -> m_sum m = 0.
+Proof.
+  unfold decode. destruct (unescape d) as [p| |]; cbn [bind]; try discriminate.
+  destruct (negb (xor_all p =? 0)); [discriminate|]. destruct (len p <? 4); [discriminate|].
+  destruct (len p <? _); [discriminate|]. destruct (_ && _); [discriminate|]. destruct (negb _); [discriminate|].
+  intros H. apply (f_equal (fun r => match r with Ok x => x | _ => m end)) in H. cbv beta iota in H. rewrite <- H.
+  cbn [m_frag m_sum]. intros ->. reflexivity.
+Qed.
